@@ -105,4 +105,76 @@ Proof using Fth HN Hom Hinv Hprim HinvN.
   unfold resp_lp. now rewrite map_length.
 Qed.
 
+(* ---- dft with sample positions xscale ---- *)
+Lemma pow_om_mod a : pow om a = pow om (a mod N).
+Proof using Fth HN Hom.
+  pose proof (Nat.div_mod a N ltac:(lia)) as Hd. rewrite Hd at 1.
+  rewrite (pow_add R rO rI radd rmul rsub ropp Rth), (pow_mul R rO rI radd rmul rsub ropp Rth), Hom,
+    (pow_one R rO rI radd rmul rsub ropp Rth). ring.
+Qed.
+
+Lemma bin_mul j k : ((j * bin_of N k) mod N)%nat = bin_of N (Z.of_nat j * k).
+Proof using HN.
+  unfold bin_of.
+  pose proof (Z.mod_pos_bound k (Z.of_nat N) ltac:(lia)) as Hb.
+  pose proof (Z.mod_pos_bound (Z.of_nat j * k) (Z.of_nat N) ltac:(lia)) as Hb2.
+  apply Nat2Z.inj. rewrite Nat2Z.inj_mod. rewrite Nat2Z.inj_mul, !Z2Nat.id by lia.
+  apply Z.mul_mod_idemp_r. lia.
+Qed.
+
+(* xscale = 0 .. N-1 (the default) gives dft at the requested bins *)
+Lemma dft_xk_default x ks :
+  dft_xk R rO rI radd rmul om N x (map Z.of_nat (seq 0 N)) ks = DFTB x ks.
+Proof using Fth HN Hom.
+  unfold dft_xk, dft_bins. apply map_ext. intros k.
+  apply (sum_ext R rO rI radd rmul rsub ropp Rth). intros j Hj. f_equal.
+  rewrite (nth_indep _ 0%Z (Z.of_nat 0)) by (now rewrite map_length, seq_length).
+  rewrite (map_nth Z.of_nat), seq_nth by exact Hj. cbn [Nat.add].
+  rewrite (pow_om_mod (j * bin_of N k)). now rewrite bin_mul.
+Qed.
+
 End BinsField.
+
+(* ---- string-valued options (no ring structure needed) ---- *)
+Lemma zs_eqb_eq a : forall b, zs_eqb a b = true <-> a = b.
+Proof.
+  induction a as [|x a IH]; intros [|y b]; cbn [zs_eqb]; try (split; [discriminate|congruence]); [tauto|].
+  rewrite andb_true_iff, Z.eqb_eq, IH. split; [intros [-> ->]; reflexivity | intros [= -> ->]; tauto].
+Qed.
+
+Lemma option_dispatch :
+  forall (R : Type) (rO rI : R) (radd rmul rsub : R -> R -> R) (om omi invN : R)
+         (cc : nat -> list R -> list R -> list R) (conj : R -> R) (N : nat) (x w c1 c2 ts : list R) (s : list Z),
+  (convolve_py R rO cc s_full x w = match convolve_full_with R rO cc x w with Some l => Ret l | None => Raise end) /\
+  (convolve_full_with R rO cc x w <> None ->
+   convolve_py R rO cc s_same x w = match convolve_same_with R rO cc x w with Some l => Ret l | None => Raise end) /\
+  (mode_class s = MOther -> convolve_full_with R rO cc x w <> None -> convolve_py R rO cc s x w = RetNone) /\
+  (mode_class s = MFull <-> s = s_full) /\ (mode_class s = MSame <-> s = s_same) /\
+  (typ_class s = TBp <-> s = s_bp) /\
+  (typ_class s = TBad -> freq_filter_py R rO rI radd rmul rsub om omi invN conj N s c1 c2 ts = Raise) /\
+  (typ_class s = TLp -> freq_filter_py R rO rI radd rmul rsub om omi invN conj N s c1 c2 ts =
+     match freq_filter R rO rI radd rmul om omi invN conj N (resp_lp R rI rsub c1) ts with Some y => Ret y | None => Raise end) /\
+  (typ_class s = THp -> freq_filter_py R rO rI radd rmul rsub om omi invN conj N s c1 c2 ts =
+     match freq_filter R rO rI radd rmul om omi invN conj N c1 ts with Some y => Ret y | None => Raise end) /\
+  (typ_class s = TBp -> freq_filter_py R rO rI radd rmul rsub om omi invN conj N s c1 c2 ts =
+     match freq_filter R rO rI radd rmul om omi invN conj N (bp_resp R rI rmul rsub c1 c2) ts with Some y => Ret y | None => Raise end).
+Proof.
+  intros. repeat split.
+  - intros H. unfold convolve_py. destruct (convolve_full_with R rO cc x w) eqn:E; try reflexivity. exfalso. apply H. reflexivity.
+  - intros Hm H. unfold convolve_py. rewrite Hm. destruct (convolve_full_with R rO cc x w); try reflexivity. exfalso. apply H. reflexivity.
+  - unfold mode_class. destruct (zs_eqb s s_full) eqn:E; [intros _; now apply zs_eqb_eq|].
+    destruct (zs_eqb s s_same); discriminate.
+  - intros ->. reflexivity.
+  - unfold mode_class. destruct (zs_eqb s s_full) eqn:E; [discriminate|].
+    destruct (zs_eqb s s_same) eqn:E2; [intros _; now apply zs_eqb_eq|discriminate].
+  - intros ->. reflexivity.
+  - unfold typ_class. destruct (zs_eqb s s_bp) eqn:E; [intros _; now apply zs_eqb_eq|].
+    destruct (zs_eqb (map lower_ascii s) s_hp || zs_eqb (map lower_ascii s) s_highpass); [discriminate|].
+    destruct (zs_eqb (map lower_ascii s) s_lp || zs_eqb (map lower_ascii s) s_lowpass); discriminate.
+  - intros ->. reflexivity.
+  - intros H. unfold freq_filter_py. now rewrite H.
+  - intros H. unfold freq_filter_py. now rewrite H.
+  - intros H. unfold freq_filter_py. now rewrite H.
+  - intros H. unfold freq_filter_py. now rewrite H.
+Qed.
+
